@@ -52,30 +52,54 @@ package dao
 //@ spec kv(d *Simple, id int32) map[string]int
 //@ spec kvBal(d *Simple, id int32) map[string]int
 //@ spec kvOk(d *Simple, id int32) map[string]bool
+// readings of a NEO candidate record: its vote tally and registered flag
+//@ spec kvVotes(d *Simple, id int32) map[string]int
+//@ spec kvReg(d *Simple, id int32) map[string]bool
+//@ spec candVotes(b seq) int
+//@ spec candReg(b seq) bool
 // the three readings are separate maps
-//@ spec kvSep(d *Simple, id int32) bool = kv(d, id) != kvBal(d, id) && kv(d, id) != nil && kvBal(d, id) != nil && kvOk(d, id) != nil
+//@ spec kvSep(d *Simple, id int32) bool = kv(d, id) != kvBal(d, id) && kv(d, id) != kvVotes(d, id) && kvBal(d, id) != kvVotes(d, id) && kvOk(d, id) != kvReg(d, id) && kv(d, id) != nil && kvBal(d, id) != nil && kvOk(d, id) != nil && kvVotes(d, id) != nil && kvReg(d, id) != nil
 
 //@ func (*Simple).GetStorageItem
 //@ assumed
 //@ pure
 //@ requires[nopanic] dao != nil
 //@ ensures kvSep(dao, id) && (result != nil) == has(kv(dao, id), string(key))
-//@ ensures result != nil ==> bigint.le2c(result) == kv(dao, id)[string(key)] && state.decBal(result) == kvBal(dao, id)[string(key)] && state.validBal(result) == kvOk(dao, id)[string(key)]
+//@ ensures result != nil ==> bigint.le2c(result) == kv(dao, id)[string(key)] && state.decBal(result) == kvBal(dao, id)[string(key)] && state.validBal(result) == kvOk(dao, id)[string(key)] && candVotes(result) == kvVotes(dao, id)[string(key)] && candReg(result) == kvReg(dao, id)[string(key)]
 
 //@ func (*Simple).PutStorageItem
 //@ assumed
 //@ requires[nopanic] dao != nil
-//@ modifies kv(dao, id)[string(key)], kvBal(dao, id)[string(key)], kvOk(dao, id)[string(key)]
-//@ ensures kvSep(dao, id) && has(kv(dao, id), string(key)) && kv(dao, id)[string(key)] == bigint.le2c(si) && kvBal(dao, id)[string(key)] == state.decBal(si) && kvOk(dao, id)[string(key)] == state.validBal(si)
+//@ modifies kv(dao, id)[string(key)], kvBal(dao, id)[string(key)], kvOk(dao, id)[string(key)], kvVotes(dao, id)[string(key)], kvReg(dao, id)[string(key)]
+//@ ensures kvSep(dao, id) && has(kv(dao, id), string(key)) && kv(dao, id)[string(key)] == bigint.le2c(si) && kvBal(dao, id)[string(key)] == state.decBal(si) && kvOk(dao, id)[string(key)] == state.validBal(si) && kvVotes(dao, id)[string(key)] == candVotes(si) && kvReg(dao, id)[string(key)] == candReg(si)
 
 //@ func (*Simple).DeleteStorageItem
 //@ assumed
 //@ requires[nopanic] dao != nil
-//@ modifies kv(dao, id)[string(key)], kvBal(dao, id)[string(key)], kvOk(dao, id)[string(key)]
+//@ modifies kv(dao, id)[string(key)], kvBal(dao, id)[string(key)], kvOk(dao, id)[string(key)], kvVotes(dao, id)[string(key)], kvReg(dao, id)[string(key)]
 //@ ensures kvSep(dao, id) && !has(kv(dao, id), string(key))
 
 //@ func (*Simple).PutBigInt
 //@ assumed
 //@ requires[nopanic] dao != nil && n != nil
-//@ modifies kv(dao, id)[string(key)], kvBal(dao, id)[string(key)], kvOk(dao, id)[string(key)]
+//@ modifies kv(dao, id)[string(key)], kvBal(dao, id)[string(key)], kvOk(dao, id)[string(key)], kvVotes(dao, id)[string(key)], kvReg(dao, id)[string(key)]
 //@ ensures kvSep(dao, id) && has(kv(dao, id), string(key)) && kv(dao, id)[string(key)] == n.v
+
+// A convertible is stored as the serialisation of its stack item; for a NEO candidate the
+// record written carries its tally and flag. Nothing is written when conversion fails.
+//@ import native github.com/nspcc-dev/neo-go/pkg/core/native
+//@ func (*Simple).PutStorageConvertible
+//@ assumed
+//@ requires[nopanic] dao != nil
+//@ modifies kv(dao, id)[string(key)], kvBal(dao, id)[string(key)], kvOk(dao, id)[string(key)], kvVotes(dao, id)[string(key)], kvReg(dao, id)[string(key)]
+//@ ensures kvSep(dao, id) && (result == nil ==> has(kv(dao, id), string(key)))
+//@ ensures result == nil && is(conv, *native.candidate) ==> kvVotes(dao, id)[string(key)] == (&conv.(*native.candidate).Votes).v && kvReg(dao, id)[string(key)] == conv.(*native.candidate).Registered
+//@ ensures result != nil ==> has(kv(dao, id), string(key)) == old(has(kv(dao, id), string(key))) && kvVotes(dao, id)[string(key)] == old(kvVotes(dao, id)[string(key)]) && kvReg(dao, id)[string(key)] == old(kvReg(dao, id)[string(key)])
+
+// The native-contract cache accessors touch the cache maps only (assumed).
+//@ func (*Simple).GetRWCache
+//@ assumed
+//@ modifies dao.nativeCache
+//@ func (*Simple).GetROCache
+//@ assumed
+//@ pure
